@@ -2,6 +2,7 @@ package main
 
 import (
 	"fmt"
+	"go/constant"
 	"go/token"
 	"strings"
 
@@ -229,6 +230,28 @@ func runC16(p *Prog, r *Report) {
 			r.Check(okOff, fnName(fn), "offset-array-position", "the offsets' offset is the 4 bytes before baseLg (n-5)", "n-5 not found", p.Pos(fn.Pos()))
 			// always checksummed
 			checkCallArg(p, r, fn, "filter-block-verified", "(*leveldb/table.Reader).readRawBlock", 2, func(v ssa.Value) bool { b, ok := constBool(v); return ok && b }, "verifyChecksum = true")
+		}
+		r.End()
+	}
+	if want("C16.6") {
+		r.Begin("C16.6", "E-GUARD", "filter policy selection: table.NewReader installs a filter policy for a table only if that policy's Name() equals the filter name recorded in the table's metaindex (primary or alternative policy); with no matching policy the table is read unfiltered — never probed with a different policy's Contains", 2)
+		if fn := resolveFn(p, r, "leveldb/table", "NewReader"); fn != nil {
+			nameEq := cmpAtom("policy.Name()==recorded name", token.EQL, func(v ssa.Value) bool {
+				c, ok := v.(*ssa.Call)
+				return ok && c.Call.IsInvoke() && c.Call.Method.Name() == "Name"
+			}, func(v ssa.Value) bool { return !isConstString(v) })
+			install := func(in ssa.Instruction) bool {
+				st, ok := in.(*ssa.Store)
+				return ok && isFieldAddr(st.Addr, "leveldb/table.Reader", "filter") && !isNilConst(st.Val)
+			}
+			checkGuard(p, r, GuardSpec{Rule: "policy-installed-only-by-name", Fn: fn, Target: install, TargetDesc: "r.filter = <policy>", Atoms: []Atom{nameEq}, G: func(a []bool) bool { return a[0] }, GDesc: "the policy's name equals the name stored in the table", MinTargets: 1})
+			// the recorded name is taken from the metaindex key after the "filter." prefix
+			r.Site(1)
+			n := countInstr(fn, func(in ssa.Instruction) bool {
+				c, ok := in.(*ssa.Call)
+				return ok && isCallTo(c, "strings.HasPrefix")
+			})
+			r.Check(n >= 1, fnName(fn), "name-from-metaindex", "the recorded filter name is read from the metaindex (\"filter.<name>\")", "no prefix test on the metaindex key", p.Pos(fn.Pos()))
 		}
 		r.End()
 	}
@@ -471,4 +494,9 @@ func ruleBloomAgreement(p *Prog, r *Report, rule string) {
 		_, isIA := u.X.(*ssa.IndexAddr)
 		return isIA
 	}), "filter.bloomFilterGenerator.Generate~filter.bloomFilter.Contains", "probe-count", "the generator sets k bits per key and the probe tests the k stored in the filter", "loop bounds differ", p.Pos(gen.Pos()))
+}
+
+func isConstString(v ssa.Value) bool {
+	c, ok := v.(*ssa.Const)
+	return ok && c.Value != nil && c.Value.Kind() == constant.String
 }
